@@ -689,3 +689,86 @@ func init() {
 		Stubs:   stubsCommon,
 	})
 }
+
+func init() {
+	register(&CheckDef{
+		ID:    "C08",
+		Title: "Concurrent Put/Get/Delete are linearizable and agree with restart recovery",
+		Reach: []string{"done"},
+		Jobs: func(tier string) []JobSpec {
+			var js []JobSpec
+			add := func(name string, params map[string]int64, maxPaths int) {
+				js = append(js, JobSpec{Name: name, Harness: "root", Func: "verifHarnessC08", Params: params, Scale: scaleDF(32), NoReplay: true, MaxPaths: maxPaths})
+			}
+			if tier == "quick" {
+				add("2x1-hashmap", p("threads", 2, "opsper", 1, "pool", 1, "index", 3, "shards", 1, "preempt", 3, "preput", 1), 0)
+				add("2x2-hashmap", p("threads", 2, "opsper", 2, "pool", 1, "index", 3, "shards", 1, "preempt", 2), 0)
+				add("2x1-btree-2keys", p("threads", 2, "opsper", 1, "pool", 2, "index", 1, "shards", 2, "preempt", 2, "preput", 1), 0)
+				add("2x1-merge", p("threads", 2, "opsper", 1, "pool", 1, "index", 3, "shards", 1, "preempt", 1, "merge", 1, "preput", 1), 0)
+			} else {
+				add("2x2-hashmap-p3", p("threads", 2, "opsper", 2, "pool", 1, "index", 3, "shards", 1, "preempt", 3, "preput", 1), 0)
+				add("3x1-skiplist", p("threads", 3, "opsper", 1, "pool", 1, "index", 2, "shards", 1, "preempt", 2, "preput", 1), 0)
+				add("2x2-btree-2keys", p("threads", 2, "opsper", 2, "pool", 2, "index", 1, "shards", 2, "preempt", 2), 0)
+				add("2x1-merge-p2", p("threads", 2, "opsper", 1, "pool", 1, "index", 3, "shards", 1, "preempt", 2, "merge", 1, "preput", 1), 0)
+			}
+			js = append(js, JobSpec{Name: "witness", Harness: "root", Func: "verifHarnessC08", Params: p("threads", 1, "opsper", 1, "pool", 1, "index", 3, "shards", 1, "witness", 1), Scale: scaleDF(32), Witness: true})
+			return js
+		},
+		Assumptions: []string{"interpreted goroutines switch only at visible operations: sync.Mutex/RWMutex calls (incl. the per-shard index locks), sync/atomic, sync.Pool, WaitGroup, file-system calls, goroutine start/exit; sequentially consistent memory between switch points",
+			"RWMutex: writer preference (a pending writer blocks new readers)", "schedule violations are not replayed natively (no schedule hooks in the repository): the replay directory holds the schedule as a decision vector for the engine",
+			"linearizability oracle: exists a total order respecting real time in which every Get returns the register's content; found flags concrete per path, values symbolic"},
+		Bounds: map[string]string{
+			"quick":    "2 goroutines x 1-2 operations from {Put(symbolic value), Delete, Get} on 1-2 keys, <= 2-3 preemptions, optional concurrent Merge (<= 1 preemption); history checked for linearizability; at quiescence live dump == dump after Close+Open",
+			"thorough": "3 goroutines x 1, 2 x 2 with 3 preemptions, Merge with 2 preemptions",
+		},
+		Outside: "4..16 clients; more than 3 preemptions; weak-memory effects; the background merge ticker",
+		Stubs:   stubsCommon,
+	})
+	callNames := []string{"Put", "Get", "Delete", "ListKeys", "Fold", "Iterate", "Stat", "Sync", "Batch", "Merge"}
+	register(&CheckDef{
+		ID:    "C09",
+		Title: "The public API is free of data races, panics and deadlocks under concurrent use",
+		Reach: []string{"done"},
+		Jobs: func(tier string) []JobSpec {
+			var js []JobSpec
+			add := func(name string, params map[string]int64) {
+				js = append(js, JobSpec{Name: name, Harness: "root", Func: "verifHarnessC09", Params: params, Scale: scaleDF(32), NoReplay: true})
+			}
+			idxs := []int{1}
+			pre := 2
+			if tier == "thorough" {
+				idxs = []int{1, 2, 3}
+				pre = 3
+			}
+			for _, idx := range idxs {
+				for a := 0; a < len(callNames); a++ {
+					for b := a; b < len(callNames); b++ {
+						pp := pre
+						if a == 9 || b == 9 {
+							pp = pre - 1 // Merge has an order of magnitude more switch points
+						}
+						add(fmt.Sprintf("%s-%s+%s", idxName[idx], callNames[a], callNames[b]), p("call0", a, "call1", b, "race", 1, "index", idx, "shards", 1, "preempt", pp, "dfs_lo", 100, "dfs_hi", 100))
+					}
+				}
+			}
+			if tier == "quick" {
+				add("hashmap-Put+Delete", p("call0", 0, "call1", 2, "race", 1, "index", 3, "shards", 2, "preempt", 2))
+				add("skiplist-Iterate+Put", p("call0", 5, "call1", 0, "race", 1, "index", 2, "shards", 1, "preempt", 2))
+			} else {
+				add("btree-Put+Delete+ListKeys", p("call0", 0, "call1", 2, "call2", 4, "race", 1, "index", 1, "shards", 1, "preempt", 2))
+				add("hashmap-Put+Batch+Stat", p("call0", 0, "call1", 8, "call2", 7, "race", 1, "index", 3, "shards", 2, "preempt", 2))
+			}
+			js = append(js, JobSpec{Name: "witness", Harness: "root", Func: "verifHarnessC09", Params: p("call0", 0, "call1", 1, "index", 3, "shards", 1, "witness", 1), Scale: scaleDF(32), Witness: true})
+			return js
+		},
+		Assumptions: []string{"same thread model as C08", "data races: happens-before (vector clock) check over every explored schedule on every heap cell, map object and atomically accessed word; sync/atomic vs plain access to one word is a conflict; sync.Pool Put->Get, WaitGroup Done->Wait, fork/join are synchronisation",
+			"this replaces the order-variable SMT query sketched in the design: with all schedules inside the preemption bound explored anyway, the per-schedule happens-before check finds the same unordered pairs and is far simpler to trust",
+			"schedule violations are not replayed natively"},
+		Bounds: map[string]string{
+			"quick":    "every unordered pair (55) of {Put, Get, Delete, ListKeys, Fold, iterator scan, Stat, Sync, batch+Commit, Merge} on a pre-populated B-tree database (DataFileSize 100 so rotations happen inside the run), <= 2 preemptions (1 with Merge); plus hash-map/skip-list samples",
+			"thorough": "all pairs for every index type with <= 3 preemptions, two triples",
+		},
+		Outside: "4..16 goroutines; races inside the Go runtime/stdlib; the background merge ticker; weak-memory effects",
+		Stubs:   stubsCommon,
+	})
+}
